@@ -10,7 +10,9 @@ Defects (net["defects"] lists what was injected, net["blunders"] the expected ab
   single_dir    a station left with a single direction (distances stay)
   dup_dir       a station whose only directions go to one and the same target (twice)
   unknown_to    an observation to an id that is not a point of the network
+  angle_fs_missing  an angle whose foresight (or backsight) target has no coordinates
   blunder       observation value shifted so that the positional misclosure is f*tol_abs
+  zangle_mid    zenith-angle blunder between the horizontal-distance and the slope-distance threshold
   blunder_w     the same on an angular observation whose stdev is 5x / 0.1x sigma-apr
 """
 import copy
@@ -53,11 +55,12 @@ def inject_blunder(rng, net, tol, factor=None, only=None):
     cands = []
     for st in station_items(net):
         ndir = sum(1 for it in st["items"] if it["t"] == "direction")
+        dir_blundered = any(it["t"] == "direction" and it.get("blunder") is not None for it in st["items"])
         for k, it in enumerate(st["items"]):
             if it.get("blunder") is not None:
                 continue
-            if it["t"] == "direction" and ndir < 3:
-                continue
+            if it["t"] == "direction" and (ndir < 3 or dir_blundered):
+                continue      # the orientation is the median shift: one blunder among >= 3 directions leaves it alone
             if only and it["t"] not in only:
                 continue
             cands.append((st, k))
@@ -79,6 +82,8 @@ def inject_blunder(rng, net, tol, factor=None, only=None):
 
 
 def make_case(rng, acord=True, dim=None, want=None):
+    if want and "zangle_mid" in want:
+        dim = 3
     dim = dim or rng.choice([2, 2, 2, 3])
     if dim == 2:
         kinds = rng.choice([("direction", "distance"), ("direction", "distance", "angle"), ("direction", "distance", "azimuth"),
@@ -86,6 +91,8 @@ def make_case(rng, acord=True, dim=None, want=None):
     else:
         kinds = rng.choice([("direction", "s-distance", "z-angle"), ("direction", "distance", "dh", "z-angle"),
                             ("direction", "distance", "s-distance", "dh"), ("direction", "distance", "vector", "dh")])
+    if want and "zangle_mid" in want:
+        kinds = ("direction", "s-distance", "z-angle")
     npts = rng.randint(4, 7)
     net = gen_net.make_network(rng, npts=npts, dim=dim, nfixed=rng.choice([2, 2, 3]), kinds=kinds,
                                density=rng.choice([0.6, 0.8, 1.0]), noise=0.0)
@@ -100,7 +107,7 @@ def make_case(rng, acord=True, dim=None, want=None):
                 it["stdev"] = rng.choice(STDEVS)
     ids = list(net["points"])
     defects = want if want is not None else rng.sample(
-        ["isolated", "one_element", "single_dir", "dup_dir", "unknown_to", "blunder", "blunder", "blunder2", "blunder_w"],
+        ["isolated", "one_element", "single_dir", "dup_dir", "unknown_to", "angle_fs_missing", "blunder", "blunder", "blunder2", "blunder_w"],
         rng.randint(0, 3))
     for d in defects:
         if d == "isolated":
@@ -121,6 +128,20 @@ def make_case(rng, acord=True, dim=None, want=None):
             val = 321.123 if t == "distance" else rng.uniform(0, 400)
             st["items"].append({"t": t, "to": pid, "val": val, "stdev": 10})
             net["defects"].append(("one_element", pid, st["from"], t))
+        elif d == "angle_fs_missing":
+            pid = f"V{len(net['points'])}"
+            p = {"x": 55.5, "y": 44.4, "status": "adj", "approx": False}
+            if dim == 3:
+                p["z"] = 12.0
+            net["points"][pid] = p
+            st = rng.choice(list(station_items(net)))
+            others = [q for q in ids if q != st["from"]]
+            role = rng.choice(["fs", "bs"])
+            it = {"t": "angle", "bs": rng.choice(others), "fs": pid, "val": rng.uniform(0, 400), "stdev": 10}
+            if role == "bs":
+                it["bs"], it["fs"] = it["fs"], it["bs"]
+            st["items"].append(it)
+            net["defects"].append(("angle_fs_missing", pid, st["from"], role))
         elif d in ("single_dir", "dup_dir"):
             cands = [st for st in station_items(net) if sum(1 for it in st["items"] if it["t"] == "direction") >= 2
                      and not any(it.get("blunder") for it in st["items"])]
@@ -158,6 +179,26 @@ def make_case(rng, acord=True, dim=None, want=None):
                     if it.get("blunder") is None:
                         it["stdev"] = 10
                 inject_blunder(rng, net, tol, factor=30.0)                     # opens the gate
+        elif d == "zangle_mid":
+            # zenith angle whose misclosure is beyond tol-abs with the slope distance but within it
+            # with the horizontal distance: f = sqrt(d3/d0)
+            best = None
+            for st in station_items(net):
+                for k, it in enumerate(st["items"]):
+                    if it["t"] == "z-angle" and it.get("blunder") is None:
+                        a, b = net["points"][st["from"]], net["points"][it["to"]]
+                        d0 = gen_net.dist2(a, b)
+                        d3 = math.sqrt(d0 * d0 + (a["z"] - b["z"]) ** 2)
+                        if best is None or d3 / d0 > best[0]:
+                            best = (d3 / d0, st, k)
+            if best and best[0] > 1 + 1e-4:
+                ratio, st, k = best
+                it = st["items"][k]
+                f = math.sqrt(ratio)
+                it["val"] = it["val"] + positional_to_value_shift(net, st, it, f * tol)
+                it["blunder"] = f
+                net["blunders"].append({"from": st["from"], "t": "z-angle", "to": it["to"], "fs": None, "f": f,
+                                        "stdev": it.get("stdev")})
         elif d == "blunder2":
             inject_blunder(rng, net, tol, factor=rng.choice([3.0, 30.0]))
             inject_blunder(rng, net, tol, factor=rng.choice([0.3, 0.9, 0.99]))
